@@ -188,7 +188,9 @@ class Fragment(AbstractApplication):
             rctr = BundleContainer()
             rctr.bundle.primary = reassm.first_frag.primary.copy()
             rctr.bundle.primary.bundle_flags &= ~PrimaryBlock.Flag.IS_FRAGMENT
-            rctr.bundle.primary.crc_type = AbstractBlock.CrcType.NONE
+            # the original had the CRC type which its fragments have (a
+            # security block may cover the primary block), only the value
+            # is for other field values
             rctr.bundle.primary.crc_value = None
 
             LOGGER.debug('Copying %d first-fragment blocks', len(reassm.first_frag.blocks))
@@ -199,6 +201,7 @@ class Fragment(AbstractApplication):
             pyld_blk.setfieldval('btsd', reassm.data)
             pyld_blk.crc_type = AbstractBlock.CrcType.NONE
             pyld_blk.crc_value = None
+            rctr.bundle.primary.update_crc()
 
             glib.idle_add(self._agent.recv_bundle, rctr)
 
